@@ -27,6 +27,30 @@ func (e *safeMsgErr) Error() string       { return e.msg }
 func (e *safeMsgErr) SafeMessage() string { return e.safe }
 func (e *safeMsgErr) Unwrap() error       { return e.cause }
 
+// emptyStackCases: layers whose stack capture found no frame at all (a depth beyond the top of the
+// goroutine): they have no stack trace to report.
+func emptyStackCases() []*Case {
+	mk := []func() error{
+		func() error { return errors.NewWithDepth(1000, "no frames") },
+		func() error { return errors.WithStackDepth(fmt.Errorf("plain"), 1000) },
+		func() error { return errors.WithHint(errors.WrapWithDepth(1000, fmt.Errorf("plain"), "ctx"), "h") },
+		func() error { return errors.Wrap(errors.WithStackDepth(fmt.Errorf("plain"), 1000), "outer with a real stack") },
+		func() error { return errors.Handled(errors.NewWithDepth(1000, "hidden without frames")) },
+	}
+	var cases []*Case
+	for i, f := range mk {
+		var e error
+		if ok, _ := catch(func() { e = f() }); !ok || e == nil {
+			continue
+		}
+		c := &Case{ID: fmt.Sprintf("nostack%d", i), Err: e, NoModel: true, Rec: &R{Op: "special:emptystack"}}
+		c.Cmd = L(Sym("special"), Str("emptystack"), Nat(i))
+		c.Real = L(Sym("res"), L(Sym("special")))
+		cases = append(cases, c)
+	}
+	return cases
+}
+
 func runtimeError(kind int) (err error) {
 	defer func() {
 		if r := recover(); r != nil {
